@@ -650,3 +650,103 @@ class LowerContraction(Contract):
             return [t]
 
         return [("reductions_rejected", not red), ("all_terms_once_in_order", leaves(result) == [("lowered", "t%d" % i) for i in range(n)])]
+
+
+@register
+class LowerBinary(Contract):
+    """compiler._lower_binary(x): Binary(op, lhs, rhs) is lowered to Binary(op, lowered lhs, lowered rhs) -- the SAME op with the
+    operands in their original order whatever they are (a constant on the left stays on the left: what remains a Binary after
+    lowering is exactly the non-commutative ops -- pow, mod, floordiv, comparisons, getitem)."""
+
+    props = ("C18",)
+    file = "funsor/compiler.py"
+    qualname = "_lower_binary"
+    total = True
+    mutants = (("constants moved to the right (seeded C18_lowering_constants_right)", "    return Binary(x.op, lhs, rhs)", "    if isinstance(lhs, (Number, Tensor)) and not isinstance(rhs, (Number, Tensor)):\n        lhs, rhs = rhs, lhs\n    return Binary(x.op, lhs, rhs)"),)
+
+    def structures(self, tier):
+        for l in ("number", "tensor", "variable"):
+            for r in ("number", "tensor", "variable"):
+                yield "lhs=%s,rhs=%s" % (l, r), (l, r)
+
+    def build(self, p, st):
+        class NumberK:
+            def __init__(self, tag):
+                self.tag = tag
+
+        class TensorK:
+            def __init__(self, tag):
+                self.tag = tag
+
+        class VarK:
+            def __init__(self, tag):
+                self.tag = tag
+
+        mk = dict(number=NumberK, tensor=TensorK, variable=VarK)
+
+        class X:
+            op = "pow"
+            lhs = mk[st[0]]("L")
+            rhs = mk[st[1]]("R")
+
+        ns = dict(_lower=lambda t: t, Binary=lambda op, a, b: ("Binary", op, a, b), Number=NumberK, Tensor=TensorK, isinstance=isinstance)
+        return Ctx(args=(X(),), namespace=ns, x=X)
+
+    def ensures(self, ctx, result):
+        ok = isinstance(result, tuple) and result[:2] == ("Binary", "pow") and result[2] is ctx.x.lhs and result[3] is ctx.x.rhs
+        return [("same_op_operands_in_order", bool(ok))]
+
+
+@register
+class PrintOp(Contract):
+    """program._print_op(op): the text printed for an op in OpProgram.as_code: '' for the tuple constructor; for a parametrised
+    op with some non-default parameter 'ops.<Class>(v1, ..., vn)' listing EVERY parameter value positionally in declaration
+    order (so that evaluating the text rebuilds an op with the same parameters -- dropping a leading default would shift the
+    rest); repr(op) otherwise."""
+
+    props = ("C18",)
+    file = "funsor/ops/program.py"
+    qualname = "_print_op"
+    total = True
+    mutants = (("only the non-default parameters are printed (seeded C18_as_code_skips_default_params)", "        args = \", \".join(map(str, op.defaults.values()))", "        base = type(op)().defaults\n        args = \", \".join(str(v) for k, v in op.defaults.items() if v != base[k])"),)
+
+    def structures(self, tier):
+        for vals in ((None, 0), (None, 1), (1, 0), (1, 1), (None, 0, True), (0, 1, False)):
+            yield "parameters=%s" % (list(vals),), vals
+        yield "make_tuple", "tuple"
+        yield "no-parameters", ()
+
+    def build(self, p, st):
+        from collections import OrderedDict
+
+        class VarOp:
+            names = ("axis", "ddof", "keepdims")
+            base = (None, 0, False)
+
+            def __init__(self, *vals):
+                n = len(vals) if vals else (len(st) if isinstance(st, tuple) else 0)
+                full = tuple(vals) + self.base[len(vals):n]
+                self.defaults = OrderedDict(zip(self.names[:n], full))
+
+            def __repr__(self):
+                return "ops.var"
+
+        make_tuple = VarOp()
+        op = make_tuple if st == "tuple" else VarOp(*st)
+        ns = dict(make_tuple=make_tuple, type=type, map=map, str=str, repr=repr)
+        return Ctx(args=(op,), namespace=ns, op=op, VarOp=VarOp, st=st)
+
+    def ensures(self, ctx, result):
+        st = ctx.st
+        if st == "tuple":
+            return [("tuple_constructor_prints_nothing", result == "")]
+        n = len(st)
+        if n == 0 or tuple(st) == ctx.VarOp.base[:n]:
+            return [("default_op_prints_its_name", result == "ops.var")]
+        # evaluating the printed text must rebuild the same parameters
+        try:
+            rebuilt = eval(result, {"ops": type("O", (), {"VarOp": ctx.VarOp})})
+            same = list(rebuilt.defaults.items()) == list(ctx.op.defaults.items())
+        except Exception:
+            same = False
+        return [("printed_constructor_rebuilds_the_same_parameters", same)]
